@@ -10,8 +10,10 @@ import sys
 import time
 
 VERIF_DIR = os.path.dirname(os.path.dirname(os.path.abspath(__file__)))
-EVIDENCE_DIR = os.path.join(VERIF_DIR, "evidence")
-REPLAY_DIR = os.path.join(VERIF_DIR, "replays")
+# (the two overrides exist only so that mutant experiments do not clobber the
+#  evidence of the real tree; registered commands never set them)
+EVIDENCE_DIR = os.environ.get("VF_EVIDENCE_DIR") or os.path.join(VERIF_DIR, "evidence")
+REPLAY_DIR = os.environ.get("VF_REPLAY_DIR") or os.path.join(VERIF_DIR, "replays")
 KNOWN_FINDINGS = os.path.join(VERIF_DIR, "known_findings.json")
 REPO = "/repo"
 
